@@ -112,3 +112,10 @@ package random
 //@ ghost field Rand.state int
 //@ func (Rand).Read
 //@ assigns arg0[:], ghost(self)
+
+// ---- test utilities exported by the package (C09: no panic for any input slice)
+//@ func EncodePermutation mode int props C09
+//@ assigns nothing
+//@ loop 1 invariant len(r) == len(perm)
+//@ loop 2 invariant len(r) == len(perm) && 0 <= i && i < len(perm)
+//@ loop 3 invariant len(r) == len(perm) && -1 <= i && i < len(perm)
